@@ -99,7 +99,7 @@ def valMatches (v : Store.Val) (ob : ObsObj) : Bool :=
 def judgeSnapshot (L : Nat) (store : Store.Store) (obs : List ObsObj) : Option String :=
   let heapLabels := obs.filterMap fun ob => if ob.whereS.startsWith "H" then some ob.whereS else none
   if heapLabels.eraseDups.length != heapLabels.length then some "two objects share a heap block" else
-  if obs.length != store.length then some "set of live objects differs" else
+  if (List.range NOBJ).any (fun o => (store.get o).isSome != obs.any (·.id == o)) then some "set of live objects differs" else
   obs.findSome? fun ob =>
     match store.get ob.id with
     | none => some s!"o{ob.id} should not be alive"
@@ -111,50 +111,200 @@ def judgeSnapshot (L : Nat) (store : Store.Store) (obs : List ObsObj) : Option S
       else if !valMatches v ob then some s!"o{ob.id}: size/elements differ from the last value given"
       else none
 
-def handle (c : Case) : Verdict :=
+/-- one operation as the harness runs it: contents after allocate() are unspecified, both sides overwrite
+    them with the marker 0xCD -/
+def runOpCanon (run : Op → M Unit) (op : Op) : M Unit :=
+  match op with
+  | .allocate o n => do run op; writeData o 0 (List.replicate n 0xCD)
+  | _ => run op
+
+structure Prefix where
+  p : Pool
+  store : Store.Store
+  out : String := ""
+  specWhy : String := ""
+  dead : Bool := false
+  lastObs : String := "-"      -- the implementation's own last snapshot
+
+/-- run the operations of a history from the empty pool, printing a snapshot per step and judging the
+    implementation's snapshot of every step against the specification store -/
+def runPrefix (w L : Nat) (ops : List Op) (c : Case) : Prefix := Id.run do
+  let mut p := Pool.init L
+  let mut store : Store.Store := Store.Store.empty
+  let mut out := ""
+  let mut i := 0
+  let mut specWhy := ""
+  let mut dead := false
+  let mut lastObs := "-"
+  let obsSteps := c.obs.filter (·.startsWith "s")
+  for op in ops do
+    i := i + 1
+    if dead then break
+    match runOpCanon Op.run op p with
+    | .ok _ p' =>
+      p := p'
+      store := Store.step store op
+      out := out ++ s!"s{i}={snapshot w p} "
+    | .fault f p' => p := p'; out := out ++ s!"s{i}=FAULT:{faultName f} "; dead := true
+    | .throw e p' => p := p'; out := out ++ s!"s{i}=THROW:{excName e} "; dead := true
+    -- judge the implementation's own snapshot of this step
+    if specWhy == "" then
+      match obsSteps[i - 1]? with
+      | some tok =>
+        let snap := (tok.splitOn "=").getD 1 ""
+        lastObs := snap
+        match parseSnapshot w snap with
+        | some obs => match judgeSnapshot L store obs with
+          | some why => specWhy := s!"step {i}: {why}"
+          | none => pure ()
+        | none => specWhy := s!"step {i}: unreadable snapshot"
+      | none => specWhy := s!"step {i}: missing (the run stopped: {obsString c |>.take 80})"
+  return { p := p, store := store, out := out, specWhy := specWhy, dead := dead, lastObs := lastObs }
+
+def endToken (p : Pool) : String :=
+  let (pEnd, flt) := destroyAll p
+  if flt.isSome then s!"end=FAULT:{faultName flt.get!}" else if leaked pEnd then "end=leak" else "end=clean"
+
+def widthOf (c : Case) : Nat :=
   let wS := c.get "w"
-  let w := if wS == "8" then 8 else if wS == "16" then 16 else 32
+  if wS == "8" then 8 else if wS == "16" then 16 else 32
+
+def handleHist (c : Case) : Verdict :=
+  let w := widthOf c
   let L := c.nat "L" 16
   let opStrs := ((c.get "ops").splitOn ";").filter (· ≠ "")
   let ops := opStrs.filterMap (parseOp w)
   if ops.length != opStrs.length then { corr := false, why := "unparsable op" } else
-  Id.run do
-    let mut p := Pool.init L
-    let mut store : Store.Store := []
-    let mut out := ""
-    let mut i := 0
-    let mut specWhy := ""
-    let mut dead := false
-    let obsSteps := c.obs.filter (·.startsWith "s")
-    for op in ops do
-      i := i + 1
-      if dead then break
-      -- contents after allocate() are unspecified: both sides overwrite them with the marker 0xCD
-      let runOp : M Unit := match op with
-        | .allocate o n => do op.run; writeData o 0 (List.replicate n 0xCD)
-        | _ => op.run
-      match runOp p with
-      | .ok _ p' =>
-        p := p'
-        store := Store.step store op
-        out := out ++ s!"s{i}={snapshot w p} "
-      | .fault f p' => p := p'; out := out ++ s!"s{i}=FAULT:{faultName f} "; dead := true
-      | .throw e p' => p := p'; out := out ++ s!"s{i}=THROW:{excName e} "; dead := true
-      -- judge the implementation's own snapshot of this step
-      if specWhy == "" then
-        match obsSteps[i - 1]? with
-        | some tok =>
-          match parseSnapshot w ((tok.splitOn "=").getD 1 "") with
-          | some obs => match judgeSnapshot L store obs with
-            | some why => specWhy := s!"step {i}: {why}"
-            | none => pure ()
-          | none => specWhy := s!"step {i}: unreadable snapshot"
-        | none => specWhy := s!"step {i}: missing (the run stopped: {obsString c |>.take 80})"
-    let (pEnd, flt) := destroyAll p
-    let endS := if flt.isSome then s!"end=FAULT:{faultName flt.get!}" else if leaked pEnd then "end=leak" else "end=clean"
-    out := out ++ endS
-    if specWhy == "" && !(c.obs.getLast?.getD "" == "end=clean") then specWhy := "storage leaked or released twice at the end of the history"
-    return { corr := out == obsString c, spec := specWhy == "", why := specWhy, model := (out.take 20000).toString,
-             branch := s!"hist.w{wS}.len{ops.length / 8 * 8}", nontrivial := ops.length > 3 }
+  let r := runPrefix w L ops c
+  let out := r.out ++ endToken r.p
+  let specWhy :=
+    if r.specWhy == "" && !(c.obs.getLast?.getD "" == "end=clean") then "storage leaked or released twice at the end of the history"
+    else r.specWhy
+  { corr := out == obsString c, spec := specWhy == "", why := specWhy, model := (out.take 20000).toString,
+    branch := s!"hist.w{c.get "w"}.len{ops.length / 8 * 8}", nontrivial := ops.length > 3 }
+
+/-! C19, buffer level: one operation with its k-th allocation failing -/
+
+def opTarget : Op → Nat
+  | .ctorDefault o | .ctorUnits o _ | .ctorCopy o _ | .ctorMove o _ | .dtor o | .clear o | .assignCopy o _ | .assignMove o _
+  | .allocate o _ | .allocateFill o _ _ | .writeData o _ _ => o
+
+def opIsCtor : Op → Bool
+  | .ctorDefault _ | .ctorUnits _ _ | .ctorCopy _ _ | .ctorMove _ _ => true
+  | _ => false
+
+def opKind : Op → String
+  | .ctorDefault _ => "ctorDefault" | .ctorUnits _ _ => "ctorUnits" | .ctorCopy _ _ => "ctorCopy" | .ctorMove _ _ => "ctorMove"
+  | .dtor _ => "dtor" | .clear _ => "clear" | .assignCopy _ _ => "assignCopy" | .assignMove _ _ => "assignMove"
+  | .allocate _ _ => "allocate" | .allocateFill _ _ _ => "allocateFill" | .writeData _ _ _ => "writeData"
+
+/-- the model's answer for the faulted call and everything after it; `none` when the model itself hits a
+    memory error (only possible for the as-found members: the implementation then shows a sanitizer abort) -/
+def faultTail (w : Nat) (run : Op → M Unit) (p : Pool) (op : Op) (k : Nat) : Option String :=
+  let armed := { p with failAt := some (p.allocs + k) }
+  let fin (res : String) (p' : Pool) : Option String :=
+    let p'' := { p' with failAt := none }
+    let snap := snapshot w p''
+    if (snap.splitOn "FAULT").length > 1 then none else
+    let e := endToken p''
+    if e.startsWith "end=FAULT" then none else
+    some s!"f={res} allocs={p'.allocs - p.allocs} sf={snap} {e}"
+  match runOpCanon run op armed with
+  | .ok _ p' => fin "completed" p'
+  | .throw .badAlloc p' => fin "bad_alloc" p'
+  | .throw _ _ => some "f=other"
+  | .fault _ _ => none
+
+def sameValue (a b : ObsObj) : Bool := a.size == b.size && a.units == b.units && (a.whereS == "L") == (b.whereS == "L")
+
+/-- C19 on the implementation's own observation: `bad_alloc` reached the caller exactly when the armed allocation
+    was attempted; afterwards every object is valid, every object other than the target is unchanged, the target
+    holds its previous value or is empty (a constructor's target does not exist), and destroying everything
+    releases every block exactly once -/
+def judgeFault (w L : Nat) (r : Prefix) (op : Op) (k : Nat) (c : Case) : Option String :=
+  let tok (key : String) : Option String := (c.obs.find? (·.startsWith (key ++ "="))).map fun t => (t.drop (key.length + 1)).toString
+  match tok "f", tok "allocs", tok "sf", tok "end" with
+  | some f, some allocsS, some sf, some e =>
+    let allocs := allocsS.toNat?.getD 0
+    if f == "completed" then
+      if allocs ≥ k then some s!"allocation {k} of the call was armed to fail but the call completed" else
+      match parseSnapshot w sf with
+      | none => some "unreadable snapshot"
+      | some obs =>
+        match judgeSnapshot L (Store.step r.store op) obs with
+        | some why => some s!"after the completed call: {why}"
+        | none => if e == "clean" then none else some "storage leaked or released twice at the end"
+    else if f != "bad_alloc" then some s!"an exception other than bad_alloc reached the caller" else
+    if allocs != k then some s!"bad_alloc although allocation {k} was not reached (attempted {allocs})" else
+    match parseSnapshot w r.lastObs, parseSnapshot w sf with
+    | some before, some after =>
+      let tgt := opTarget op
+      let heapLabels := after.filterMap fun ob => if ob.whereS.startsWith "H" then some ob.whereS else none
+      if heapLabels.eraseDups.length != heapLabels.length then some "after bad_alloc: two objects share a heap block" else
+      let bad := after.findSome? fun ob =>
+        if ob.term != 0 then some s!"after bad_alloc: o{ob.id} has no NUL after the last element"
+        else if ob.whereS.startsWith "A" || ob.whereS.startsWith "Z" then some s!"after bad_alloc: o{ob.id} points into another object"
+        else if ob.size < L && ob.whereS != "L" then some s!"after bad_alloc: o{ob.id} short contents not inside the object"
+        else if ob.size ≥ L && !ob.whereS.startsWith "H" then some s!"after bad_alloc: o{ob.id} long contents not on the heap"
+        else if ob.units.length != ob.size then some s!"after bad_alloc: o{ob.id} unreadable"
+        else none
+      if bad.isSome then bad else
+      let others := (List.range NOBJ).findSome? fun o =>
+        if o == tgt then none else
+        match before.find? (·.id == o), after.find? (·.id == o) with
+        | none, none => none
+        | some a, some b => if sameValue a b then none else some s!"after bad_alloc: o{o} (not the target) changed"
+        | _, _ => some s!"after bad_alloc: o{o} (not the target) was created or destroyed"
+      if others.isSome then others else
+      let tgtWhy :=
+        match before.find? (·.id == tgt), after.find? (·.id == tgt) with
+        | none, none => none
+        | none, some _ => some s!"after bad_alloc: the constructor's target o{tgt} exists"
+        | some _, none => some s!"after bad_alloc: the target o{tgt} disappeared"
+        | some a, some b =>
+          if opIsCtor op then some s!"after bad_alloc: the constructor's target o{tgt} exists"
+          else if sameValue a b || b.size == 0 then none
+          else some s!"after bad_alloc: the target o{tgt} holds neither its previous value nor an empty value"
+      if tgtWhy.isSome then tgtWhy else
+      if e == "clean" then none else some "after bad_alloc: storage leaked or released twice when everything was destroyed"
+    | _, _ => some "unreadable snapshot"
+  | _, _, _, _ => some s!"the call did not return to the caller: {(obsString c).take 80}"
+
+/-- the model the fault cases are compared with: the repaired members (`Op.run`, about which `Props/C19.lean` proves
+    `fault_safe`).  Before the `fix:` commit of the library this was `Op.runAsFound` (the members as found in the pinned
+    tree), with which the check reported the defect as "model and implementation agree, the property fails". -/
+def faultModel : Op → M Unit := Op.run
+
+def handleFault (c : Case) : Verdict :=
+  let w := widthOf c
+  let L := c.nat "L" 16
+  let k := c.nat "k" 1
+  let opStrs := ((c.get "ops").splitOn ";").filter (· ≠ "")
+  let ops := opStrs.filterMap (parseOp w)
+  match parseOp w (c.get "op") with
+  | none => { corr := false, why := "unparsable op" }
+  | some op =>
+  if ops.length != opStrs.length then { corr := false, why := "unparsable op" } else
+  let r := runPrefix w L ops c
+  if r.dead then { corr := false, why := "model: the prefix history does not complete", model := r.out } else
+  let tail := faultTail w faultModel r.p op k
+  let out := match tail with | some t => r.out ++ t | none => "abort asan"
+  let obs := obsString c
+  let corr := match tail with | some _ => out == obs | none => obs.startsWith "abort asan:"
+  let specWhy :=
+    if obs.startsWith "abort" || obs.startsWith "hang" then
+      s!"{opKind op} with allocation {k} failing does not return to the caller / leaves an object that cannot be read or destroyed: {obs}"
+    else if r.specWhy != "" then r.specWhy else (judgeFault w L r op k c).getD ""
+  -- diagnostic: does the observation coincide with the model of the members as found in the pinned tree?
+  let asFound := match faultTail w Op.runAsFound r.p op k with
+    | some t => r.out ++ t == obs
+    | none => obs.startsWith "abort asan:"
+  let specWhy := if specWhy != "" && !corr && asFound then specWhy ++ " [as the unrepaired allocate/operator= (defect 16)]" else specWhy
+  let fired := (obs.splitOn "f=bad_alloc").length > 1
+  { corr := corr, spec := specWhy == "", why := specWhy, model := (out.take 20000).toString,
+    branch := s!"fault.w{c.get "w"}.{opKind op}.k{k}.{if fired then "thrown" else "completed"}", nontrivial := true }
+
+def handle (c : Case) : Verdict :=
+  if c.op == "fault" then handleFault c else handleHist c
 
 end Driver.Pool
